@@ -5,7 +5,10 @@ from gen import G, MNEMS, REG64, REG32, ALLREGS, NOOP_MNEMS
 LIT_MNEMS = ["mov", "ov", "mo", "add", "sub", "push", "pop", "call", "ret", "jmp", "lea", "xor", "nop", "cmp",
              "j", "movq", "e", "test", "and", "or"]
 LIT_OPS = ["rax", "%rax", "eax", "ax", "%rbx", "rbx", "rcx", "%ecx", "r8", "%r8", "%r8d", "0x10", "0x1", "10", "0",
-           "rsp", "%rsp", "rbp", "rdi", "%rsi", "al", "0xff", "x", "%", 0, 1, 10, 8]
+           "rsp", "%rsp", "rbp", "rdi", "%rsi", "al", "0xff", "x", "%", 0, 1, 10, 8,
+           # names that END in hex digits + h but are not of the form [0-9a-f]+h (the 8-bit high registers with their %):
+           # ordinary names, not assembler-style hexadecimal literals
+           "%bh", "%ah", "%ch", "%dh", "r8h", "xah"]
 
 
 def times_obj(g, allow_zero=True):
@@ -243,9 +246,12 @@ def perturb(g, insts):
     if not insts:
         return insts
     insts = [list(i) for i in insts]
-    k = g.int(0, 7)
+    k = g.int(0, 8)
     j = g.r.randrange(len(insts))
-    if k == 7 and insts[j][2]:
+    if k == 8:
+        # the mnemonic with one more letter (movl for mov): contained-in vs equal
+        insts[j][1] = insts[j][1] + g.pick(["l", "q", "b", "x"]) if g.chance(0.7) else g.pick(["c", "v"]) + insts[j][1]
+    elif k == 7 and insts[j][2]:
         # fewer operands than the item lists (down to none: the record then has one empty operand field)
         insts[j][2] = list(insts[j][2])[:g.int(0, len(insts[j][2]) - 1)]
     elif k == 0:
